@@ -163,7 +163,7 @@ pub fn run(ctx: &mut Ctx) {
     // long alternative lists (17..300, some 3000) against small partners, both orders, run
     // on a 256 KiB stack: counts around 16/32/64/256 and stack depth following the list length
     ctx.stratum("L-long-alternative-lists", false);
-    let n = ctx.tier.n(60, 2_000);
+    let n = ctx.tier.n(60, 500);
     for i in 0..n {
         if ctx.take() {
             let mut r = Rng::for_case(ctx.seed, "C08-L", i);
